@@ -111,6 +111,9 @@ C05V(r) ==
   IF r.raised # "" THEN
      (IF WellFormedTrack(r.nl) /\ PhrasesSorted(r.ph) /\ ~(r.nl # <<>> /\ ForcedAt(r.nl, MinTick(r.nl)))
       THEN <<"fail", "well-formed-section-rejected">> ELSE Skip("raised"))
+  \* "some star-power phrase OF ITS TRACK": the track's phrases are its 'S 2' lines, in file order, and nothing else (r.ph as
+  \* written; sibling kinds such as 'S 64' drum fills are no star power)
+  ELSE IF sp # r.ph THEN <<"fail", "the-tracks-phrases-are-its-S-2-lines">>
   ELSE IF ~PhrasesSorted(sp) THEN Skip("phrases-not-sorted")
   ELSE IF ~(\A k \in 1..(Len(ob) - 1) : ob[k].t < ob[k+1].t) THEN Skip("notes-not-increasing")
   ELSE FirstFail(<<
@@ -444,6 +447,8 @@ C10Field(f, r) ==
        ELSE TRUE                                                                          \* non-canonical spelling: not constrained
 C10V(r) ==
   IF r.kind = "lang" THEN LangV(r) ELSE
+  \* (r.again_same: the same container of lines decoded a second time gave the same fields / the same refusal)
+  IF ~r.again_same THEN <<"fail", "same-fields-when-the-same-lines-are-decoded-again">> ELSE
   LET resL == LibLinesOf("f_resolution", r.lines) IN
   IF resL = {} THEN
     FirstFail(<< <<"absent-Resolution-raises-MissingRequiredField", r.raised = "MissingRequiredField">> >>)
